@@ -1,0 +1,79 @@
+//! verif-hooks (C12): builds the BMP unit's HTTP processors the way
+//! `BmpTcpInRunner` does.
+use std::sync::Arc;
+
+use arc_swap::ArcSwap;
+use chrono::Utc;
+use tokio::sync::Mutex;
+
+use super::http::{RouterInfoApi, RouterListApi};
+use super::metrics::BmpTcpInMetrics;
+use super::state_machine::{BmpState, BmpStateMachineMetrics};
+use super::status_reporter::BmpTcpInStatusReporter;
+use crate::common::frim::FrimMap;
+use crate::http::{ProcessRequest, Resources};
+use crate::ingress;
+
+/// A router list over a unit that has no routers connected.
+pub fn router_list_api(
+    resources: Resources,
+    http_api_path: &str,
+) -> Arc<dyn ProcessRequest> {
+    Arc::new(RouterListApi::new(
+        resources,
+        Arc::new(http_api_path.to_string()),
+        Arc::new(FrimMap::default()),
+        Arc::new(BmpTcpInMetrics::default()),
+        Arc::new(BmpStateMachineMetrics::default()),
+        Arc::new(ArcSwap::from_pointee("{sys_name}".to_string())),
+        Arc::new(FrimMap::default()),
+        Arc::new(ingress::Register::new()),
+    ))
+}
+
+/// Keeps the state machine alive that a `RouterInfoApi` refers to weakly.
+pub struct RouterInfoHandle {
+    pub processor: Arc<dyn ProcessRequest>,
+    _state: Arc<Mutex<Option<BmpState>>>,
+}
+
+/// The per-router endpoint for a router that has just connected (state
+/// machine in its initial phase), known under `router_id` and `addr`.
+pub fn router_info_api(
+    resources: Resources,
+    http_api_path: &str,
+    router_id: &str,
+    addr: std::net::IpAddr,
+) -> (RouterInfoHandle, ingress::IngressId) {
+    let ingresses = Arc::new(ingress::Register::new());
+    let ingress_id = ingresses.register();
+    ingresses.update_info(
+        ingress_id,
+        ingress::IngressInfo::new().with_remote_addr(addr),
+    );
+    let conn_metrics = Arc::new(BmpTcpInMetrics::default());
+    let bmp_metrics = Arc::new(BmpStateMachineMetrics::default());
+    let reporter = Arc::new(BmpTcpInStatusReporter::new(
+        "verif",
+        conn_metrics.clone(),
+    ));
+    let state = Arc::new(Mutex::new(Some(BmpState::new(
+        ingress_id,
+        Arc::new(router_id.to_string()),
+        reporter,
+        bmp_metrics.clone(),
+        ingresses.clone(),
+    ))));
+    let processor: Arc<dyn ProcessRequest> = Arc::new(RouterInfoApi::new(
+        resources,
+        Arc::new(http_api_path.to_string()),
+        ingress_id,
+        conn_metrics,
+        bmp_metrics,
+        Utc::now(),
+        Arc::new(std::sync::RwLock::new(Utc::now())),
+        Arc::downgrade(&state),
+        ingresses,
+    ));
+    (RouterInfoHandle { processor, _state: state }, ingress_id)
+}
